@@ -161,6 +161,12 @@ class Walker:
             v = o.get("v")
             if v is None and "fv" in o:
                 v = o["fv"]
+            if v is None and self.facts is not None and isinstance(o.get("ty"), str):
+                # the value of a field-less workspace struct (`EmptyPopulation`, `ZeroWeight`) written as a path is a constant in
+                # MIR; it is the same value as the aggregate the struct literal builds
+                adt = self.facts.adts.get(o["ty"])
+                if adt is not None and adt.get("kind") == "struct" and len(adt.get("variants") or ()) == 1 and not adt["variants"][0]["fields"]:
+                    return ("agg", "adt", o["ty"] + "::" + adt["variants"][0]["name"], ())
             return ("const", o["ty"], o["s"], v)
         return ("unknown", "operand")
 
